@@ -331,15 +331,9 @@ func (c *Client) getCachedConfig(cacheDir string) (*Config, error) {
 	// then still better than no cached config at all.
 	var firstErr error
 	for _, file := range files {
-		data, err := os.ReadFile(file)
-		if err != nil {
-			err = fmt.Errorf("failed to read cached config: %w", err)
-		} else {
-			var config Config
-			if err = json.Unmarshal(data, &config); err == nil {
-				return &config, nil
-			}
-			err = fmt.Errorf("failed to parse cached config: %w", err)
+		config, err := readCacheFile(file)
+		if err == nil {
+			return config, nil
 		}
 		log.Debugf("skipping cache file %s: %v", file, err)
 		if firstErr == nil {
@@ -348,6 +342,19 @@ func (c *Client) getCachedConfig(cacheDir string) (*Config, error) {
 	}
 
 	return nil, firstErr
+}
+
+// readCacheFile reads and parses one cached config file
+func readCacheFile(file string) (*Config, error) {
+	data, err := os.ReadFile(file)
+	if err != nil {
+		return nil, fmt.Errorf("failed to read cached config: %w", err)
+	}
+	var config Config
+	if err := json.Unmarshal(data, &config); err != nil {
+		return nil, fmt.Errorf("failed to parse cached config: %w", err)
+	}
+	return &config, nil
 }
 
 // getCached returns the latest cached config with metadata
@@ -482,8 +489,18 @@ func (c *Client) cleanupOldVersions(cacheDir string) error {
 		return nil
 	}
 
-	// Remove files beyond cacheSize (keep latest ones)
-	for _, file := range files[c.cacheSize:] {
+	// Keep the latest cacheSize versions that can actually be used and remove
+	// the rest. A cache file that cannot be read or parsed (e.g. left
+	// truncated by an interrupted writer) is never returned by
+	// getCachedConfig, so it must not take the place of a valid version.
+	kept := 0
+	for _, file := range files {
+		if kept < c.cacheSize {
+			if _, err := readCacheFile(file); err == nil {
+				kept++
+				continue
+			}
+		}
 		if err := os.Remove(file); err != nil {
 			return fmt.Errorf("failed to remove cache file %s: %w", file, err)
 		}
